@@ -42,7 +42,7 @@ def shards(tier, seed):
 def floors(tier):
     return {"pairs:equivalent": 1500, "pairs:inequivalent": 1500, "constructive:gates_verified": 500,
             "constructive:sequence_verified": 500, "lc_check:calls": 200, "lcomp:calls": 400, "pairs:disconnected": 200,
-            "mode:random": 300, "set:solution_space_dim": 5, "state_converter_circuit:calls": 50}
+            "mode:random": 300, "set:solution_space_dim": 5, "state_converter_circuit:calls": 50, "lc_check:non_graph_form_tableaux": 150}
 
 
 class BasisProbe:
@@ -257,24 +257,46 @@ def check_pair(A, B, truth, ctx, probe, rng, level=1, modes=None):
                 ctx.violation("Graph.lc_equivalent_wrong", case, {"answer": bool(a2), **det}, key="lc_graph_iface")
         except Exception as e:
             ctx.violation("Graph.lc_equivalent_raises", case, {"exception": f"{type(e).__name__}: {e}"[:300]}, key="lc_graph_iface_exc")
-        which = int(rng.integers(3))
+        which = int(rng.integers(5))
+        t1, t2 = group_of(A), group_of(B)
         if which == 0:
             s1, s2 = gq.nx_from_adj(A), gq.nx_from_adj(B)
         elif which == 1:
-            s1 = gq.ptab_to_stabilizer_tableau(group_of(A))
-            s2 = gq.ptab_to_stabilizer_tableau(group_of(B))
+            s1 = gq.ptab_to_stabilizer_tableau(t1)
+            s2 = gq.ptab_to_stabilizer_tableau(t2)
+        elif which == 2:
+            s1 = gq.ptab_to_clifford(t1, rng)
+            s2 = gq.ptab_to_clifford(t2, rng)
         else:
-            s1 = gq.ptab_to_clifford(group_of(A), rng)
-            s2 = gq.ptab_to_clifford(group_of(B), rng)
-        try:
-            ok, gl = lc_check(s1, s2)
-            ctx.count("lc_check:calls")
-            if not ok:
-                ctx.violation("lc_check_false_no", case, {"input_kind": which, **det}, key="lc_check_false_no")
-            elif not apply_gates(group_of(A), gl).same_group(group_of(B)):
-                ctx.violation("lc_check_gates_wrong", case, {"gates": [list(map(str, g)) for g in gl], "input_kind": which}, key="lc_check_gates")
-        except Exception as e:
-            ctx.violation("lc_check_raises", case, {"exception": f"{type(e).__name__}: {e}"[:300], "input_kind": which}, key="lc_check_exc")
+            # stabilizer states that are local-Clifford images of the two graph states (not in graph form): the gate list
+            # has to undo the reduction of the second state in the right order
+            def rotate(t):
+                t = t.copy()
+                for q in range(n):
+                    for g in [["h", "s", "sdg", "x", "z", "y"][int(v)] for v in rng.integers(0, 6, int(rng.integers(0, 4)))]:
+                        t.apply(g, q)
+                return pauli.scramble_generators(rng, t) if n >= 2 else t
+            if which == 3:
+                t2 = rotate(t2)
+            else:
+                t1, t2 = rotate(t1), rotate(t2)
+            ctx.count("lc_check:non_graph_form_tableaux")
+            s1 = gq.ptab_to_stabilizer_tableau(t1) if rng.random() < 0.5 else gq.ptab_to_clifford(t1, rng)
+            s2 = gq.ptab_to_stabilizer_tableau(t2) if rng.random() < 0.5 else gq.ptab_to_clifford(t2, rng)
+        for validate in (True, False):
+            try:
+                ok, gl = lc_check(s1, s2, validate=validate)
+                ctx.count("lc_check:calls")
+                if not ok:
+                    ctx.violation("lc_check_false_no", case, {"input_kind": which, **det}, key="lc_check_false_no")
+                elif not apply_gates(t1, gl).same_group(t2):
+                    ctx.violation("lc_check_gates_wrong", case, {"gates": [list(map(str, g)) for g in gl], "input_kind": which, "validate": validate,
+                                                                 "state1": t1.labels()[:8], "state2": t2.labels()[:8]}, key="lc_check_gates")
+            except Exception as e:
+                ctx.violation("lc_check_raises", case, {"exception": f"{type(e).__name__}: {e}"[:300], "input_kind": which, "validate": validate,
+                                                        "state1": t1.labels()[:8], "state2": t2.labels()[:8]}, key="lc_check_exc")
+            if which < 3:
+                break
         if ctx.counters.get("lc_check:calls", 0) % 4 == 0:
             try:
                 circ = state_converter_circuit(gq.nx_from_adj(A), gq.nx_from_adj(B))
